@@ -80,12 +80,12 @@ theorem createVar_name (env : Env) (v : ParamVar) (d : String) :
     (createVar env v d).typ = env.typeNameF (env.derefPtr v.ty) := ⟨rfl, rfl, rfl⟩
 
 /-- the type text is the package-qualified name of the operand type: the import's name in the setup
-file for an imported named type, the bare name for a local one -/
+file for an imported named type, the bare name for a local one and for one of a dot-imported package -/
 theorem typeName_named (env : Env) (fuel : Nat) (t : TyId) (hk : env.kind t = .named) (p : String)
     (hg : (env.ty t).hasTypeArgs = false) (hp : (env.ty t).pkgPath = some p) :
     env.typeName (fuel + 1) t =
       (match env.importName p with
-       | some n => n ++ "." ++ (env.ty t).name
+       | some n => if n == "." then (env.ty t).name else n ++ "." ++ (env.ty t).name
        | none => (env.ty t).name) := by
   simp only [Env.typeName, hk, hp, hg, Bool.false_eq_true, ↓reduceIte]
   cases env.importName p <;> rfl
